@@ -670,6 +670,83 @@ example : (run c1 (init c1) [.start, .term]).phase = .terminated ∧
     (run c1 (run c1 (init c1) [.start, .term]) [.renew none true, .start, .tick 1, .apo]).phase = .terminated := by
   decide
 
+/-! ## Overlapping calls (two threads on one lifecycle)
+
+OS threads are outside the property's quantifier (sequential histories); what can be said from the source is the
+discipline that MAKES overlapping calls sequential: every mutator does all its work on the state inside one
+`with self._lock` region.  The facts are regenerated from the source by E3 on every run. -/
+
+/-- On the CURRENT source: the nine mutators are public and take the lock, and every public method that takes the lock
+    has exactly one top-level region and touches no private state outside it - neither directly nor through a
+    self-method called outside the region (no unlocked fast path, no check-then-act window before the lock is taken). -/
+theorem c09_mutators_work_on_the_state_only_under_the_lock :
+    Gen.TelomereLocks.recognised = true ∧ mutatorsTakeLock genTable = true ∧
+    lockedMethodsAtomic genTable genUnlocked = true := by decide
+
+/-- the discipline is not vacuous: a `tick` that reads the phase through `is_operational()` BEFORE queueing on the lock
+    (seeded change s2) is rejected, and so is a method split into two regions -/
+example :
+    lockedMethodsAtomic [⟨"is_operational", true, 0, []⟩, ⟨"tick", true, 0, [.call 0, .region []]⟩]
+      [("is_operational", ["_phase"]), ("tick", [])] = false ∧
+    lockedMethodsAtomic [⟨"renew", true, 0, [.region [], .region []]⟩] [("renew", [])] = false ∧
+    lockedMethodsAtomic [⟨"is_operational", true, 0, []⟩, ⟨"tick", true, 0, [.region [0]]⟩]
+      [("is_operational", ["_phase"]), ("tick", [])] = true := by decide
+
+/-- soundness of `exposed` (every table): a method whose exposed state is empty mentions no state outside its own
+    regions, and every self-method it calls outside a region has no exposed state either -/
+theorem c09_exposed_empty_is_hereditary (T : Table) (U : List (String × List String)) (fuel m : Nat) (x : Method)
+    (hx : T[m]? = some x) (h : exposed T U (fuel + 1) m = []) :
+    (U.lookup x.name).getD ["<no fact>"] = [] ∧ ∀ c, Item.call c ∈ x.body → exposed T U fuel c = [] := by
+  simp only [exposed, hx, List.append_eq_nil_iff] at h
+  refine ⟨h.1, ?_⟩
+  have key : ∀ (items : List Item), exposedItems (exposed T U fuel) items = [] →
+      ∀ c, Item.call c ∈ items → exposed T U fuel c = [] := by
+    intro items
+    induction items with
+    | nil => intro _ c hc; cases hc
+    | cons it rest ih =>
+      intro hn c hc
+      cases it with
+      | call c' =>
+        simp only [exposedItems, List.append_eq_nil_iff] at hn
+        rcases List.mem_cons.mp hc with hc | hc
+        · cases hc; exact hn.1
+        · exact ih hn.2 c hc
+      | region cs =>
+        simp only [exposedItems] at hn
+        rcases List.mem_cons.mp hc with hc | hc
+        · cases hc
+        · exact ih hn c hc
+  exact key x.body h.2
+
+/-- Two overlapping calls (thread A held back before its `j`-th acquisition of the lock while thread B makes its call)
+    amount to a sequential history of the same two calls: all history theorems above apply to it. -/
+theorem c09_overlapping_calls_are_a_sequential_history (cfg : Cfg) (s : State) (j : Nat) (a b : Op) :
+    raceOps cfg s j a b = [a, b] ∨ raceOps cfg s j a b = [b, a] := by
+  unfold raceOps; split <;> simp
+
+/-- APOPTOTIC / TERMINATED never tick, also when the tick overlaps the call that ends the lifecycle: if `terminate()` /
+    `trigger_apoptosis()` (on a lifecycle that is not TERMINATED) takes effect first, the tick reports False and leaves
+    the ended lifecycle - length, counters, timestamps - exactly as the end call left it; TERMINATED / APOPTOTIC it stays. -/
+theorem c09_tick_overlapping_an_end_call_never_ticks_the_dead (cfg : Cfg) (s : State) (j c : Nat) (b : Op)
+    (hb : b = .term ∨ (b = .apo ∧ s.phase ≠ .terminated))
+    (hord : raceOps cfg s j (.tick c) b = [b, .tick c]) :
+    run cfg s (raceOps cfg s j (.tick c) b) = (step cfg s b).st ∧
+    (step cfg (step cfg s b).st (.tick c)).ret = .bool false ∧
+    ((step cfg s b).st.phase = .terminated ∨ (step cfg s b).st.phase = .apoptotic) := by
+  have hdead : (step cfg s b).st.phase = .apoptotic ∨ (step cfg s b).st.phase = .terminated := by
+    rcases hb with hb | ⟨hb, hT⟩
+    · subst hb; right; simp [step, terminate]
+    · subst hb; left; simp [step, apoptosis, hT]
+  have h := c09_dead_never_ticks cfg (step cfg s b).st c hdead
+  refine ⟨?_, h.2.1, hdead.symm⟩
+  rw [hord]
+  simp [run, h.1]
+
+/-- the order hypothesis is met: a tick held back before it takes the lock lets the end call go first -/
+example : raceOps c1 (run c1 (init c1) [.start, .tick 1]) 0 (.tick 1) .term = [.term, .tick 1] ∧
+    raceOps c1 (init c1) 1 (.tick 1) .apo = [.tick 1, .apo] := by decide
+
 /-- Hayflick is tight: with max_operations = 30 exactly 26 unit ticks report True before senescence (the 27th
     reaches the 10 % threshold), and the segment is a `BetweenRenewals` stretch -/
 example : trueUnitTicks ⟨30, 5, true, none, none⟩ (init ⟨30, 5, true, none, none⟩) (List.replicate 30 (.tick 1)) = 26 := by
